@@ -15,7 +15,7 @@ import vlib
 
 MODEL = "consumer"
 MODULE = "Model.Consumer"
-TIED = ["C03_single_commit_committed_is_acked"]
+TIED = ["C03_single_commit_committed_is_acked", "C03_commit_is_last_processed"]
 
 
 def libs():
@@ -232,6 +232,28 @@ def run(ck):
                               "what": "store holds %d; a fresh consumer started from OFFSET_COMMITTED over the real client received %r..., the log holds %r... after it"
                                       % (c, got[:10], want[:10]), "cfg": cfgc, "seed": seed, "events": [list(e) for e in run.log_events],
                               "replay_op": "composed"})
+    # directed lives: every group error code on the OffsetCommit answer and on the OffsetFetch answer
+    for on in ("commit", "ofetch"):
+        for err in sorted(set(CC.GROUP_ERRS)):
+            log = LL.PartitionLog(random.Random(11), n=8)
+            ents = [o for (o, k, v) in log.entries]
+            store0 = ents[1] if on == "ofetch" else None
+            store = LL.OffsetStore(store0)
+            cfgc = dict(acn=0, acs=0, reset=1, maxatt=0, gen=17)
+            run = CC.directed_commit_error(random.Random(5), log, store, err, on=on, **cfgc)
+            ck.hist("composed_directed_lives")
+            comp_commits += len(run.commit_reqs)
+            comp_acked += len(run.acked)
+            bad = CC.monitors(run, store0)
+            if run.escaped:
+                bad.append(("no exception escapes a stimulus", "step %d: %s" % (run.escaped[0], run.escaped[1])))
+            if on == "commit" and not run.commit_reqs:
+                bad.append(("directed life", "no OffsetCommit frame was sent (error code %d on %s)" % (err, on)))
+            for (thm, what) in bad:
+                ck.violation({"kind": "monitor (composed, directed: error code %d on the %s answer)" % (err, on), "theorem": thm, "what": what,
+                              "cfg": cfgc, "seed": 5, "events": [list(e) for e in run.log_events], "store0": store0,
+                              "log_units": [[u.kind, u.magic, [[o, list(k) if k is not None else None, list(v) if v is not None else None] for (o, k, v) in u.entries]] for u in log.units],
+                              "replay_op": "composed"})
     ck.hist("composed_commit_requests", comp_commits)
     ck.hist("composed_commits_acknowledged", comp_acked)
     ck.hist("composed_resumes_checked", comp_resumes)
@@ -292,21 +314,7 @@ def replay(rp):
         print("monitor verdicts:", json.dumps(bad, indent=1, default=repr))
         return 1 if bad else 0
     if rp.get("replay_op") == "composed":
-        import random
         from props import consumer_compose_lib as CC
-        log = LL.PartitionLog(random.Random(0), n=0, first=0)
-        for (kind, magic, ents) in rp.get("log_units", []):
-            log.units.append(LL.Unit(kind, magic, [(o, None if k is None else bytes(k), None if v is None else bytes(v)) for (o, k, v) in ents]))
-        if log.units:
-            log.start = log.units[0].entries[0][0]
-            log.next = log.units[-1].entries[-1][0] + 1
-        store = LL.OffsetStore(rp.get("store0"))
-        run = CC.replay_life(rp.get("seed", 0), log, store, rp["events"], **rp["cfg"])
-        bad = CC.monitors(run, rp.get("store0"))
-        print("delivered:", run.delivered)
-        print("commit requests:", run.commit_reqs)
-        print("acknowledged:", run.acked, "commit() results:", run.commit_results, "last_committed_offset history:", run.lc_seen)
-        print("monitor verdicts:", json.dumps(bad, indent=1, default=repr))
-        return 1 if bad else 0
+        return CC.replay_composed(rp)
     print(json.dumps(rp, indent=1, default=repr)[:3000])
     return 1
